@@ -77,6 +77,14 @@ class Malformed(Harness):
                 dots = {k: -1 for k in exp}
                 for lazy, mode, chunked in ((True, "seek", False), (False, "seek", True)):
                     out.append(dict(fmt="bedgraph", rows=[[1, 1, 1, 3]] * 3, exp=exp, dot=dots, bad=list(bad), lazy=lazy, mode=mode, chunked=chunked))
+        # an empty numeric cell (the column count is right, the text between the separators is empty)
+        for fmt, base, cells in (("bed3", [[1, 1, 1], [1, 2, 2], [2, 1, 1]], (1, 2)), ("bed6", [[1, 1, 1, 1, 1, 1], [1, 2, 1, 1, 2, 1], [1, 1, 2, 1, 1, 1]], (1, 2))):
+            for bad in range(len(base)):
+                for col in cells:
+                    rows = [list(r) for r in base]
+                    rows[bad][col] = 0
+                    for lazy, mode, chunked in ((True, "seek", False), (False, "seek", True)) + (((True, "prepend", True),) if tier == "thorough" else ()):
+                        out.append(dict(fmt=fmt, rows=rows, bad=[bad, "empty", col], lazy=lazy, mode=mode, chunked=chunked))
         # texts made of legal bytes that are not numbers: a second '.', and '.' or '-' alone
         for rows, bad in (([[1, 1, 1, 3]] * 3, (1, 3, 0)), ([[1, 1, 1, 3]] * 3, (2, 3, 2)), ([[1, 1, 1, 3]] * 3, (0, 3, 2)),
                           ([[1, 1, 1, 3], [1, 1, 1, 1], [1, 1, 1, 3]], (1, 3, 0)), ([[1, 1, 1, 1], [1, 1, 1, 3], [1, 1, 1, 3]], (0, 3, 0)),
@@ -141,7 +149,7 @@ class Malformed(Harness):
                 # with a quality line that itself begins with '+' the file is a different one: a complete record whose quality is the next
                 # header line, followed by junk; the deleted line is only identifiable when the quality does not pass for a separator
                 V.assume(V.vars[f"qq{skel['bad'][0]}_0"].t != ord("+"))
-        elif skel["bad"][1] == "ncols":
+        elif skel["bad"][1] in ("ncols", "empty"):
             F.declare_cells(V, skel)
         else:
             F.declare_cells(V, skel)
